@@ -389,10 +389,11 @@ theorem XInv.step {c : Cfg} {s0 s : St} (ok : CfgOK c s0) (wf : DiskWF s0.disk) 
   | nodeDone n => exact ⟨x.exact, x.sub, x.al⟩
   | nodeFailed n => exact x
   | nodeReset n => exact x
+  | restart => exact ⟨x.exact, x.sub, fun _ es he => by cases he⟩
   | removeEmpty => exact x.frame (foldRemove_frame (fun a => (c.namesOf a).isEmpty) s.dom s)
   | cacheMap => exact x.cacheMap ok wf.top
   | early upto =>
-    show XInv s0 (if s.final then s else Martian.Vdr.cleanTmp c s (min upto 2))
+    show XInv s0 (if s.final then s else Martian.Vdr.cleanTmp c s (min upto 3))
     split
     · exact x
     · exact x.cleanTmp _
